@@ -110,6 +110,10 @@ func (r *Runner) VerifyFunctionSeeded(p *govc.Program, fi *govc.FuncInfo, opt go
 	if len(res.HeapKeys) > 0 {
 		probe.HeapKeys = res.HeapKeys
 		res = p.VerifyFunc(fi, probe)
+		for extra := 0; extra < 3 && res.Reject == "" && len(res.HeapKeys) > len(probe.HeapKeys); extra++ {
+			probe.HeapKeys = res.HeapKeys
+			res = p.VerifyFunc(fi, probe)
+		}
 	}
 	seeded := opt
 	seeded.HeapKeys = probe.HeapKeys
@@ -157,6 +161,16 @@ func (r *Runner) verifyFrom(p *govc.Program, fi *govc.FuncInfo, opt govc.Options
 			if res.Reject != "" {
 				out.Reject = res.Reject
 				return out
+			}
+			// candidate generation itself can register further keys (e.g. map fields of structs
+			// reached through a pointer variable in scope): repeat until the key set is stable
+			for extra := 0; extra < 3 && len(res.HeapKeys) > len(opt.HeapKeys); extra++ {
+				opt.HeapKeys = res.HeapKeys
+				res = p.VerifyFunc(fi, opt)
+				if res.Reject != "" {
+					out.Reject = res.Reject
+					return out
+				}
 			}
 		}
 		var cands []*govc.Oblig
